@@ -300,11 +300,15 @@ def check_config(acc, n, r, bname, model_rows, cons, normalized=False, enum_mode
         ps.ENV.chooser = chooser
         try:
             return 'ok', finder.find_circuit(time_limit=time_limit)
-        except NoSolutionError:
-            return 'nosol', None
-        except SolverTimeOutError:
-            return 'timeout', None
         except Exception as e:  # noqa: BLE001
+            # classified by what a caller's handlers would see: a time-out that is ALSO a NoSolutionError
+            # tells `except NoSolutionError` that no circuit exists
+            if isinstance(e, SolverTimeOutError) and isinstance(e, NoSolutionError):
+                return 'exc', e
+            if isinstance(e, NoSolutionError):
+                return 'nosol', None
+            if isinstance(e, SolverTimeOutError):
+                return 'timeout', None
             return 'exc', e
         finally:
             ps.ENV.chooser = None
@@ -501,6 +505,9 @@ def plan(tier):
     for i in range(len(menu)):
         t.append({'kind': 'incr', 'ci': i})
     t.append({'kind': 'norm'})
+    for r in (1, 2):
+        for fb, nb in (('XAIG', 'XAIG'), ('XAIG', 'nand'), ('AIG', 'FULL')):
+            t.append({'kind': 'reuse', 'r': r, 'first_basis': fb, 'second_basis': nb})
     t.append({'kind': 'pool'})
     t.append({'kind': 'pymodel'})
     if tier == 'thorough':
@@ -526,7 +533,7 @@ def describe(tier):
         'answers (other phase / reversed variable order); every brute-force solution (first 30 per configuration in the quick tier, 400 in the thorough tier) turned into a CNF '
         'model, checked against get_cnf() and fed back through find_circuit (must decode to itself); for the configurations '
         'marked enum: every model of the CNF distinct on the decoded variables is enumerated, decoded and looked up in the '
-        'solution set, and counted; NoSolutionError iff the solution set is empty. wide: 4..12 inputs with a few care rows (the CNF stays small), r<=2; incremental: search, add one constraint, search again on the same finder. Time-limit path through a synchronous fake '
+        'solution set, and counted; NoSolutionError iff the solution set is empty. wide: 4..12 inputs with a few care rows (the CNF stays small), r<=2; incremental: search, add one constraint, search again on the same finder. reuse: one model object given to a normalized (or plain) finder and then to a second finder with another basis - second answer as on a fresh model, model unchanged; a time-out must not be an instance of NoSolutionError. Time-limit path through a synchronous fake '
         'pool (returns / times out) and the real fork-based pool for a few configurations. distinct = distinct configuration '
         'outcome classes.',
         'bounds': {
@@ -591,6 +598,12 @@ def run_task(task, acc):
         models = all_models(3, 1)[task['lo']:task['hi']]
         for mr in models:
             check_config(acc, 3, task['r'], task['basis'], mr, [])
+    elif k == 'reuse':
+        for mr in all_models(2, 1):
+            for normalized in (True, False):
+                check_model_reuse(acc, 2, task['r'], mr, {'basis': task['first_basis'], 'normalized': normalized}, task['second_basis'])
+        for mr in all_models(1, 1):
+            check_model_reuse(acc, 1, task['r'], mr, {'basis': task['first_basis'], 'normalized': True}, task['second_basis'])
     elif k == 'cons1':
         c = constraint_menu(2, 2)[task['ci']]
         for b in ('AIG', 'XAIG', 'FULL'):
@@ -737,6 +750,54 @@ def _cons_config(acc, n, r, b, mr, cons, normalized=False, enum=False):
         acc.count('constraint_rejected')
 
 
+def check_model_reuse(acc, n, r, model_rows, first_kw, second_basis):
+    """One model object serves two finders in a row (the first one normalized / with another basis): the second
+    search must behave as on a fresh model, and the model must still describe the same partial function."""
+    from cirbo.core.truth_table import TruthTableModel
+    from cirbo.synthesis.circuit_search import CircuitFinderSat
+    from cirbo.synthesis.exception import NoSolutionError
+    import pysat.solvers as ps
+
+    case = {'n': n, 'r': r, 'model': list(model_rows), 'reuse': {'first': first_kw, 'second_basis': second_basis}}
+    acc.states += 1
+    acc.traces += 1
+    acc.transitions += 2
+    model = TruthTableModel([list(s) for s in model_rows])
+    before = [list(row) for row in model.get_model_truth_table()]
+    ps.ENV.chooser = None
+    try:
+        f1 = CircuitFinderSat(model, r, basis=basis_arg(first_kw['basis']), need_normalized=first_kw['normalized'])
+        try:
+            f1.find_circuit()
+        except NoSolutionError:
+            pass
+    except Exception as e:  # noqa: BLE001
+        acc.violation(f'CircuitFinderSat/raises-{type(e).__name__}', case, repr(e))
+        return
+    after = [list(row) for row in model.get_model_truth_table()]
+    sem = lambda tab: [[('1' if v else '0') if isinstance(v, (bool, int)) else '*' for v in row] for row in tab]  # noqa: E731
+    if sem(after) != sem(before):
+        acc.violation('CircuitFinderSat/modifies-the-model-it-was-given', case, f'{before} -> {after}')
+    sols = solutions(n, r, second_basis, tuple(model_rows), [])
+    try:
+        f2 = CircuitFinderSat(model, r, basis=basis_arg(second_basis))
+        c = f2.find_circuit()
+        kind = 'ok'
+    except NoSolutionError:
+        kind, c = 'nosol', None
+    except Exception as e:  # noqa: BLE001
+        acc.violation(f'find_circuit/raises-{type(e).__name__}', case, repr(e))
+        return
+    if kind == 'nosol' and sols:
+        acc.violation('find_circuit/no-solution-although-one-exists(model reused)', case, f'{len(sols)} solutions')
+    elif kind == 'ok':
+        if not sols:
+            acc.violation('find_circuit/returns-circuit-although-none-exists(model reused)', case, '')
+        else:
+            check_returned(acc, case, {'basis': second_basis}, c, n, r, second_basis, model_rows, [], False)
+    acc.outcome('reuse', (kind, bool(sols)))
+
+
 def _timeout_config(acc, n, r, bname, mr):
     from cirbo.synthesis.exception import NoSolutionError, SolverTimeOutError
 
@@ -747,7 +808,9 @@ def _timeout_config(acc, n, r, bname, mr):
     try:
         f.find_circuit(time_limit=1)
         acc.violation('find_circuit/ignores-solver-timeout', case, '')
-    except SolverTimeOutError:
+    except SolverTimeOutError as e:
+        if isinstance(e, NoSolutionError):
+            acc.violation('find_circuit/timeout-is-also-a-NoSolutionError', case, 'a handler for NoSolutionError reads the time-out as "no circuit exists"')
         acc.outcome('timeout', (n, r))
     except NoSolutionError:
         # trivially unsatisfiable formulas are rejected before the solver is called
@@ -758,6 +821,8 @@ def _timeout_config(acc, n, r, bname, mr):
 
 
 def replay(case, acc):
+    if 'reuse' in case and 'task' not in case:
+        return check_model_reuse(acc, case['n'], case['r'], tuple(case['model']), case['reuse']['first'], case['reuse']['second_basis'])
     if 'task' in case:
         return run_task(case['task'], acc)
     if case.get('pool') == 'fake-timeout':
